@@ -1,6 +1,7 @@
 package main
 
 import (
+	"bytes"
 	"compress/gzip"
 	"encoding/json"
 	"fmt"
@@ -9,6 +10,7 @@ import (
 	"strings"
 	"time"
 
+	jwt "github.com/nats-io/jwt/v2"
 	v1 "github.com/nats-io/jwt/v2/v1compat"
 )
 
@@ -211,6 +213,7 @@ func runC11V1(c *Ctx, g *valGen, seedU []byte, replacements []interface{}, repor
 	if c.thorough() {
 		bases = 8
 	}
+	vn := 0
 	for _, kind := range v1Kinds {
 		for b := 0; b < bases; b++ {
 			cl, s := v1Random(g, kind)
@@ -226,7 +229,11 @@ func runC11V1(c *Ctx, g *valGen, seedU []byte, replacements []interface{}, repor
 			}
 			raw, _ := b64.DecodeString(strings.Split(tok, ".")[1])
 			var tree interface{}
-			json.Unmarshal(raw, &tree)
+			// (numbers kept as written: a float64 would round the 64-bit values of the base and make every mutated
+			// token undecodable)
+			treeDec := json.NewDecoder(bytes.NewReader(raw))
+			treeDec.UseNumber()
+			treeDec.Decode(&tree)
 			var paths []jpath
 			collectPaths(tree, nil, &paths)
 			for _, p := range paths {
@@ -256,9 +263,19 @@ func runC11V1(c *Ctx, g *valGen, seedU []byte, replacements []interface{}, repor
 					}
 					ft := forge(hdrV1, string(pj), "v1", s)
 					exerciseV1Token(ft.Token, s, seedU, report(ft.Token, fmt.Sprintf("v1 %s payload, %s at %v", kind, m.how, p)))
+					// the same token through the version-2 library: its version-1 loaders and the migration behind them
+					exerciseToken(ft.Token, s, seedU, report(ft.Token, fmt.Sprintf("v1 %s payload through the v2 library, %s at %v", kind, m.how, p)))
 					c.sum.Evaluations++
 					c.sum.ImplChecks++
 					c.count("v1compat_mutation_" + m.how)
+					vn++
+					if vn%16 == 0 {
+						if d, err := jwt.Decode(ft.Token); err == nil && d != nil {
+							c.count("sampled_mutated_v1_token_migrates")
+						} else {
+							c.count("sampled_mutated_v1_token_refused_by_v2")
+						}
+					}
 				}
 			}
 		}
